@@ -226,7 +226,7 @@ fn chunk_positions(spec: &FileSpec, kind: &str) -> Vec<(usize, usize)> {
     v
 }
 
-pub const MODEL_OPS: [&str; 47] = [
+pub const MODEL_OPS: [&str; 52] = [
     "cel_payload_short",
     "cel_payload_long",
     "cel_decl_bigger",
@@ -274,6 +274,11 @@ pub const MODEL_OPS: [&str; 47] = [
     "tags_count_huge",
     "random_chunk_type",
     "sparse_cel_table",
+    "link_to_image_cel_on_tilemap_layer",
+    "tags_in_later_frame",
+    "sixbit_component_out_of_range",
+    "palette_shifted_high",
+    "many_wide_tags",
 ];
 
 fn fmt_of(spec: &FileSpec) -> Fmt {
@@ -723,6 +728,73 @@ pub fn model_input(base: &Base, op: usize, rng: &mut Rng, deep_groups: usize) ->
             let mut r = Rng::new(4);
             spec = crate::program::compile(&sp, &mut r, &v);
             label = format!("well-formed sprite of {} layers x {} frames, one 1x1 cel per frame on the top layer", n, n);
+        }
+        "link_to_image_cel_on_tilemap_layer" => {
+            // an image cel on a tilemap layer is accepted by the loader; a linked cel pointing at it
+            // then makes "tilemap layer + linked cel" resolve to something that is not a tilemap
+            let layers = chunk_positions(&spec, "layer");
+            let cands: Vec<usize> = (0..layers.len())
+                .filter(|i| matches!(&spec.frames[layers[*i].0].chunks[layers[*i].1].spec, ChunkSpec::Layer { l, .. } if matches!(l.kind, LayerKind::Tilemap(_))))
+                .collect();
+            if cands.is_empty() {
+                return None;
+            }
+            let li = *rng.pick(&cands) as u16;
+            spec.frames.push(FrameSpec::new(10));
+            spec.frames.push(FrameSpec::new(10));
+            spec.header.frames += 2;
+            let a = spec.frames.len() - 2;
+            spec.frames[a].chunks.push(raw_cel(li, fmt, 2, 2).into());
+            spec.frames[a + 1].chunks.push(ChunkSpec::Cel { layer: li, c: CelM { x: 0, y: 0, opacity: 255, content: CelContentM::Link(a as u16), ud: None }, storage: Storage::Raw, reserved: [0; 7], cel_type_override: None }.into());
+            label = format!("tilemap layer {}: image cel in frame {}, linked cel in frame {} pointing at it", li, a, a + 1);
+        }
+        "tags_in_later_frame" => {
+            spec.frames.push(FrameSpec::new(10));
+            spec.header.frames += 1;
+            let a = spec.frames.len() - 1;
+            spec.frames[a].chunks.push(ChunkSpec::Tags { tags: vec![TagM { from: 0, to: 0, dir: 0, repeat: 0, color: 0, name: "late".into(), ud: None }], reserved: [0; 8], tag_reserved: [0; 6] }.into());
+            spec.frames[a].chunks.push(ChunkSpec::UserData(UserDataM { text: Some("after late tags".into()), color: None }).into());
+            label = format!("tags chunk (and a user-data record) in frame {}", a);
+        }
+        "sixbit_component_out_of_range" => {
+            spec.frames[0].chunks.insert(0, ChunkSpec::OldPalette { kind: 0x11, packets: vec![(0, vec![[1, 2, 3], [64 + rng.below(192) as u8, 0, 63]])] }.into());
+            label = "legacy 0x0011 palette chunk with a component >= 64 as first chunk".into();
+        }
+        "palette_shifted_high" => {
+            // indexed sprite whose (complete, tiny) palette sits at huge indices, plus a cel without pixels
+            let n = *rng.pick(&[1_000_000u32, 300_000_000, 0xffff_fff0]);
+            let mut sp = Sprite::blank(1, 1, Fmt::Indexed, 1);
+            sp.layers.push(LayerM::image("l"));
+            let mut pal = std::collections::BTreeMap::new();
+            for i in 0..3u32 {
+                pal.insert(n.wrapping_add(i), PalEntryM { rgba: [i as u8, 2, 3, 255], name: None });
+            }
+            sp.palette = Some(pal);
+            sp.cels.insert((0, 0), CelM { x: 0, y: 0, opacity: 255, content: CelContentM::Image { w: 0, h: 0, pixels: vec![] }, ud: None });
+            let mut r = Rng::new(5);
+            let mut v = Variation::none();
+            v.default_storage = if rng.chance(1, 2) { Storage::Raw } else { Storage::Zlib(6) };
+            spec = crate::program::compile(&sp, &mut r, &v);
+            label = format!("indexed sprite with palette entries {}..{} and a 0x0 cel", n, n.wrapping_add(2));
+        }
+        "many_wide_tags" => {
+            // well-formed: hundreds of tags that each span the whole u16 frame range
+            let k = *rng.pick(&[200usize, 600, 2000]);
+            let tags: Vec<TagM> = (0..k).map(|i| TagM { from: 0, to: 65535, dir: (i % 3) as u8, repeat: 0, color: 0, name: String::new(), ud: None }).collect();
+            // replace an existing tags chunk or add one to frame 0
+            let pos = chunk_positions(&spec, "tags");
+            if let Some(p) = pos.first() {
+                // drop the records that followed the old chunk
+                let mut at = p.1 + 1;
+                while at < spec.frames[p.0].chunks.len() && matches!(spec.frames[p.0].chunks[at].spec, ChunkSpec::UserData(_)) {
+                    spec.frames[p.0].chunks.remove(at);
+                }
+                let _ = &mut at;
+                spec.frames[p.0].chunks[p.1] = ChunkSpec::Tags { tags, reserved: [0; 8], tag_reserved: [0; 6] }.into();
+            } else {
+                spec.frames[0].chunks.push(ChunkSpec::Tags { tags, reserved: [0; 8], tag_reserved: [0; 6] }.into());
+            }
+            label = format!("{} tags each spanning frames 0..=65535", k);
         }
         "zlib_garbage" => {
             // corrupt the compressed stream of a cel / tileset after encoding
